@@ -2,6 +2,7 @@ CONSTANTS
   Family = "C12q"
   IdBytes = 20
   MaxSeq = 100000000
+  Seeded = {}
 INIT TraceInit
 NEXT TraceNext
 CONSTRAINT HighWater
